@@ -30,6 +30,7 @@ CASES = [
     ('Derivative', dict(method='central', n=0), (2,), None, (2,)),
     ('Gradient', dict(method='central'), (3,), (), (3,)),
     ('Gradient', dict(method='forward'), (1,), (), ()),
+    ('Gradient', dict(method='central'), (2, 2), (), (4,)),
     ('Jacobian', dict(method='central'), (2,), (3,), (3, 2)),
     ('Jacobian', dict(method='complex'), (3,), (2,), (2, 3)),
     ('Jacobian', dict(method='backward'), (2,), (), (1, 2)),
